@@ -9,6 +9,7 @@ import Kap.Basic
 import Kap.Model.C13
 import Kap.Model.C13Prog
 import Kap.Proofs.C13Prog
+import Kap.Gen.C13Tick
 import Kap.Spec.C13
 open Kap Kap.C13 Kap.C13.Gen
 
@@ -169,6 +170,65 @@ def cmpProg (st : St) (what : String) (obs : List String) : St :=
         | none => noteMism st s!"{what}: unreadable dump"
       | _ => noteMism st s!"{what}: program model ok, observed {obs.take 4}"
 
+/-! pipeline/tick: the properties a node is rendered with, against the builder order extracted from the source -/
+
+def zeroArg : Arg → Bool
+  | .expr (.lit (.str l _)) => l.isEmpty
+  | .expr (.lit (.num (.int _ v))) => v == 0
+  | .expr (.lit (.num (.flt c))) => c == "0.0"
+  | .expr (.lit (.dur ns _)) => ns == 0
+  | .expr (.lit (.bool b)) => !b
+  | _ => false
+
+/-- embed the emitted property sequence into the builder order (an entry may repeat: loops) -/
+def embedProps (table : List (String × String)) : Nat → List Link → Option String
+  | _, [] => none
+  | i, l :: rest =>
+    let cands := (List.range table.length).filter (fun j => j ≥ i && (table.getD j ("", "")).2 == l.name)
+    match cands.head? with
+    | none => some s!"property .{l.name} is not at or after position {i} of the builder order"
+    | some j =>
+      let m := (table.getD j ("", "")).1
+      let allZero := match l.args with
+        | some as => !as.isEmpty && as.all zeroArg
+        | none => false
+      if m == "Dot" && allZero then some s!"property .{l.name} was emitted with zero-valued arguments although Dot elides them"
+      else embedProps table j rest
+
+/-- split a chain into node segments: each `|node(...)` with the `.property` links that follow it -/
+def segments : List Link → List (String × List Link)
+  | [] => []
+  | l :: rest =>
+    let props := rest.takeWhile (fun x => x.op != .pipe)
+    let more := rest.dropWhile (fun x => x.op != .pipe)
+    if l.op == .pipe then (l.name, props) :: segmentsAux more rest.length else segmentsAux more rest.length
+where
+  segmentsAux : List Link → Nat → List (String × List Link)
+    | _, 0 => []
+    | [], _ => []
+    | l :: rest, n + 1 =>
+      let props := rest.takeWhile (fun x => x.op != .pipe)
+      let more := rest.dropWhile (fun x => x.op != .pipe)
+      (l.name, props) :: segmentsAux more n
+
+def checkTick (st : St) (txt : String) : St :=
+  match parseProgram txt with
+  | .ok p =>
+    let chains := p.filterMap (fun s => match s with
+      | .decl _ (.chain _ ls) => some ls
+      | .expr (.chain _ ls) => some ls
+      | _ => none)
+    let segs := (chains.map segments).flatten
+    segs.foldl (fun st (node, props) =>
+      match Gen.tickTable.find? (fun e => e.1 == node) with
+      | none => addBr st ["tick-dynamic-node"]
+      | some (_, table) =>
+        match embedProps table 0 props with
+        | none => addBr st ["tick-order-ok"]
+        | some why => noteMism st s!"pipeline/tick |{node}: {why}") st
+  | .err => noteMism st "ptick: the model parser rejects the rendered script"
+  | .na w => addBr st ["tick-na:" ++ w]
+
 /-- the formatted text, token by token (layout-independent), against the model's `fmtProgram` -/
 def cmpProgText (st : St) (txt : String) : St :=
   match st.progOff, st.curP with
@@ -288,6 +348,7 @@ def judge (_id : String) (lines : Array String) : Verdict := Id.run do
           else
             let some s := unesc t | return .badop l
             st := addBr { st with evs := st.evs.push (.text "ptick" s), afterPtick := true } ["pipeline-ptick"]
+            st := checkTick st s
         | _ => return .badop l
       else return .badop l
     | _ => return .badop l
